@@ -58,6 +58,9 @@ func c16r1(c *core.Ctx) {
 			}
 			if n := name(arg); n != "" {
 				d = n
+				if core.IsCall(i, "(*bytes.Buffer).WriteByte") {
+					d = n + "[1]" // one byte, by the method's type
+				}
 			} else if a := allocOf(arg); a != nil {
 				// []byte{item.x}: one-element array holding the field
 				if l, ok := knownLen(a); ok && l == 1 {
@@ -173,6 +176,12 @@ func c16r2(c *core.Ctx) {
 			}
 		}
 	}
+	// second accepted idiom: offset loop  for off := 0; off < len(value); off += 255 { n := copy(buf, value[off:]) }
+	byOffset := false
+	if !okLen && buf != nil && lenKnown {
+		byOffset = offsetChunking(lenStore.Val, buf, valueParam, n)
+		okLen = byOffset
+	}
 	c.Check(okLen, "fragment-length@"+fname(f), lenStore.Pos(), "item.length is the count io.ReadFull reported for the fragment buffer", "item.length is not the number of bytes read into the fragment buffer")
 	// value = buf[:length]
 	okVal := false
@@ -215,7 +224,7 @@ func c16r2(c *core.Ctx) {
 				}
 			}
 		}
-	} else {
+	} else if !byOffset { // with the offset idiom a short copy means the next offset is past the end: the loop condition ends it
 		cont = false
 	}
 	c.Check(cont, "only-last-fragment-short@"+fname(f), f.Pos(), "the loop continues only after a completely filled fragment", "the fragment loop can continue after a short fragment: fragments other than the last would be shorter than 255")
@@ -296,7 +305,8 @@ func c16r3(c *core.Ctx) {
 		}
 		returned := false
 		core.Instrs(r, func(j ssa.Instruction) {
-			if ret, ok := j.(*ssa.Return); ok && len(res(ret)) == 2 && res(ret)[1] == errv && core.IsNilConst(res(ret)[0]) {
+			if ret, ok := j.(*ssa.Return); ok && len(res(ret)) == 2 && core.IsNilConst(res(ret)[0]) &&
+				(res(ret)[1] == errv || core.AnySource(res(ret)[1], func(s ssa.Value) bool { return s == errv })) {
 				returned = true
 			}
 		})
@@ -305,6 +315,13 @@ func c16r3(c *core.Ctx) {
 		for _, rr := range *call.Referrers() {
 			if _, ok := rr.(*ssa.BinOp); ok {
 				used = true
+			}
+		}
+		if ev, ok := errv.(ssa.Instruction); ok && errv != ssa.Value(call) {
+			for _, rr := range *ev.(ssa.Value).Referrers() {
+				if _, ok := rr.(*ssa.BinOp); ok {
+					used = true
+				}
 			}
 		}
 		if !(returned && used) {
@@ -359,4 +376,61 @@ func c16r3(c *core.Ctx) {
 // constPlusOne builds the constant k+1 as an ssa value for the "len >= k+1" test of an index k.
 func constPlusOne(at ssa.Instruction, k int64) ssa.Value {
 	return ssa.NewConst(constantInt(k+1), types.Typ[types.Int])
+}
+
+// offsetChunking: lenVal is the result of  copy(buf, value[off:])  where off is the loop variable that starts at 0, advances by
+// exactly the buffer size and is tested against len(value) — fragments are contiguous, in order, and only the last can be short.
+func offsetChunking(lenVal ssa.Value, buf *ssa.Alloc, value *ssa.Parameter, size int64) bool {
+	for _, s := range core.Sources(lenVal) {
+		call, ok := s.(*ssa.Call)
+		if !ok {
+			continue
+		}
+		b, isB := call.Call.Value.(*ssa.Builtin)
+		if !isB || b.Name() != "copy" || allocOf(call.Call.Args[0]) != buf {
+			continue
+		}
+		if dst, isSl := call.Call.Args[0].(*ssa.Slice); isSl {
+			// must fill the buffer from its start, over its whole length
+			if dst.Low != nil {
+				continue
+			}
+			if dst.High != nil {
+				if k, isK := core.ConstInt(dst.High); !isK || k != size {
+					continue
+				}
+			}
+		}
+		src, ok := call.Call.Args[1].(*ssa.Slice)
+		if !ok || src.X != ssa.Value(value) || src.High != nil || src.Low == nil {
+			continue
+		}
+		off, ok := src.Low.(*ssa.Phi)
+		if !ok || len(off.Edges) != 2 {
+			continue
+		}
+		zero, step := false, false
+		for _, e := range off.Edges {
+			if k, isK := core.ConstInt(e); isK && k == 0 {
+				zero = true
+			}
+			if bo, isBo := e.(*ssa.BinOp); isBo && bo.Op == token.ADD && bo.X == ssa.Value(off) {
+				if k, isK := core.ConstInt(bo.Y); isK && k == size {
+					step = true
+				}
+			}
+		}
+		// the loop test  off < len(value)  governs the body
+		tested := core.Dominated(call, func(cond ssa.Value) (bool, bool) {
+			bo, ok := cond.(*ssa.BinOp)
+			if !ok || bo.Op != token.LSS || bo.X != ssa.Value(off) {
+				return false, false
+			}
+			return isLenOf(bo.Y, value), false
+		})
+		if zero && step && tested {
+			return true
+		}
+	}
+	return false
 }
